@@ -26,6 +26,10 @@ def t_two():
     raise NeedsTwo(1, 2)
 
 
+def t_two_item(x=0, *a, **k):
+    raise NeedsTwo(1, 2)
+
+
 def t_try(marker):
     try:
         x = 7
